@@ -1,0 +1,38 @@
+//go:build verif
+
+package limitscanner
+
+// Contracts checked by /verif (lsvc). This file contains comments only and is
+// compiled only with the build tag "verif".
+
+// The current entry of the scanner: the same slices until the next Scan.
+//@ func (s *LimitScanner) Key
+//@   trusted
+//@   function
+//@   reads ghost_scanEpoch
+
+//@ func (s *LimitScanner) Val
+//@   trusted
+//@   function
+//@   reads ghost_scanEpoch
+
+//@ func (s *LimitScanner) Scan
+//@   trusted
+//@   modifies ghost_scanEpoch, *s
+
+//@ func (s *LimitScanner) Cursor
+//@   trusted
+//@   pure
+
+//@ func (s *LimitScanner) Err
+//@   trusted
+//@   pure
+
+//@ func (s *LimitScanner) Close
+//@   trusted
+//@   pure
+
+//@ func NewLimitScanner
+//@   trusted
+//@   pure
+//@   ensures r1 == nil ==> r0 != nil
